@@ -198,7 +198,7 @@ def joinVerdicts (l : List (String × Option String)) : String :=
   let bad := l.filterMap fun (p, v) => v.map fun m => p ++ ":" ++ m
   if bad.isEmpty then "-" else "!" ++ "|".intercalate bad
 
-partial def runCircuitOps (ck : CloserKind) (c : Circ OState CState) (cfgSpec : LiveCfg) (rb : RealBook)
+partial def runCircuitOps (fresh : OState × CState × SpecC03.Book) (ck : CloserKind) (c : Circ OState CState) (cfgSpec : LiveCfg) (rb : RealBook)
     (lines : List (String × String)) (acc : Array String) : Array String :=
   match lines with
   | [] => acc
@@ -210,7 +210,7 @@ partial def runCircuitOps (ck : CloserKind) (c : Circ OState CState) (cfgSpec : 
     match toks.head? with
     | some "exec" =>
       match parseExec kvs with
-      | none => runCircuitOps ck c cfgSpec rb rest (acc.push "bad-op\t-")
+      | none => runCircuitOps fresh ck c cfgSpec rb rest (acc.push "bad-op\t-")
       | some op =>
         -- scripted answers exist only where the logic is scripted
         let oScr := match c.opener with | .scripted _ => true | _ => false
@@ -251,7 +251,7 @@ partial def runCircuitOps (ck : CloserKind) (c : Circ OState CState) (cfgSpec : 
         -- the settings the specification tracks follow the REAL call: they change iff its run function was invoked
         let realRan : Bool := match parseObs op real with | some ro => ro.runCalls != 0 | none => mo.runCalls != 0
         let cfgSpec' := match mid with | some m => if realRan then { m with iei := cfgSpec.iei } else cfgSpec | none => cfgSpec
-        runCircuitOps ck c' cfgSpec' rb' rest (acc.push (fmtExecObs mo ++ "\t" ++ spec))
+        runCircuitOps fresh ck c' cfgSpec' rb' rest (acc.push (fmtExecObs mo ++ "\t" ++ spec))
     | some "open" | some "close" =>
       let isOpenOp := toks.head? == some "open"
       let (c', obs) := if isOpenOp then manualOpen openerI closerI c else manualClose openerI closerI c
@@ -272,7 +272,7 @@ partial def runCircuitOps (ck : CloserKind) (c : Circ OState CState) (cfgSpec : 
                          ("C03", if !isOpenOp then effect else none), ("C08", c08), ("C12", verdictC12 ev rd)],
            { rb with c03 := ev.foldl SpecC03.Book.onEmit rb.c03, openBefore := realOpen, lastNotif := ((notifs ev).getLast?).orElse fun _ => rb.lastNotif })
         | _, _ => ("-", { rb with openBefore := realOpen })
-      runCircuitOps ck c' cfgSpec rb' rest (acc.push (m ++ "\t" ++ spec))
+      runCircuitOps fresh ck c' cfgSpec rb' rest (acc.push (m ++ "\t" ++ spec))
     | some "setcfg" =>
       let cfg := parseCfg kvs c.cfg
       let c' := setConfig c cfg
@@ -282,32 +282,37 @@ partial def runCircuitOps (ck : CloserKind) (c : Circ OState CState) (cfgSpec : 
         let want := if cfg.forceOpen then true else if cfg.forcedClosed then false else under
         if cfg.disabled then "-" else
         if realOpen != want then "!C08:IsOpen after an override change is not ForceOpen / ForcedClosed / the underlying state|C09:IsOpen disagrees with the last notification" else "-"
-      runCircuitOps ck c' cfg { rb with openBefore := realOpen } rest (acc.push (s!"open={fmtBool (isOpenEff c')}" ++ "\t" ++ spec))
+      runCircuitOps fresh ck c' cfg { rb with openBefore := realOpen } rest (acc.push (s!"open={fmtBool (isOpenEff c')}" ++ "\t" ++ spec))
+    | some "rebuild" =>
+      -- SetConfigNotThreadSafe with ANOTHER TimeKeeper (clock B = clock A + 1000 s): the factories are asked again, so
+      -- the opener and the closer start afresh; the open/closed flag and the gauges stay
+      let c' := { c with clock := c.clock + 1000000000000, opener := fresh.1, closer := fresh.2.1 }
+      runCircuitOps fresh ck c' cfgSpec { rb with c03 := fresh.2.2, openBefore := realOpen } rest (acc.push (s!"open={fmtBool (isOpenEff c')}" ++ "\t-"))
     | some "tick" =>
       let c' := { c with clock := c.clock + (toks.getD 1 "0").toInt?.getD 0 }
-      runCircuitOps ck c' cfgSpec { rb with openBefore := realOpen } rest (acc.push (s!"open={fmtBool (isOpenEff c')}" ++ "\t-"))
+      runCircuitOps fresh ck c' cfgSpec { rb with openBefore := realOpen } rest (acc.push (s!"open={fmtBool (isOpenEff c')}" ++ "\t-"))
     | some "fire" =>
       let k := (toks.getD 1 "0").toNat?.getD 0
       let c' := { c with closer := match c.closer with | .hystrix h => .hystrix { h with tc := h.tc.fire k } | o => o }
-      runCircuitOps ck c' cfgSpec { rb with openBefore := realOpen } rest (acc.push (s!"open={fmtBool (isOpenEff c')}" ++ "\t-"))
+      runCircuitOps fresh ck c' cfgSpec { rb with openBefore := realOpen } rest (acc.push (s!"open={fmtBool (isOpenEff c')}" ++ "\t-"))
     | some "closercfg" =>
       let c' := { c with closer := match c.closer with
         | .hystrix h => .hystrix { h with tc := { h.tc with sleep := kvInt kvs "sleep" h.tc.sleep, allow := kvInt kvs "half" h.tc.allow }, required := kvInt kvs "req" h.required }
         | o => o }
       let b3 := rb.c03
       let b3 := { b3 with sleep := kvInt kvs "sleep" b3.sleep, half := kvInt kvs "half" b3.half, req := kvInt kvs "req" b3.req, cfgChanged := true }
-      runCircuitOps ck c' cfgSpec { rb with c03 := b3, openBefore := realOpen } rest (acc.push (s!"open={fmtBool (isOpenEff c')}" ++ "\t-"))
+      runCircuitOps fresh ck c' cfgSpec { rb with c03 := b3, openBefore := realOpen } rest (acc.push (s!"open={fmtBool (isOpenEff c')}" ++ "\t-"))
     | some "openercfg" =>
       let c' := { c with opener := match c.opener with
         | .hystrix h => .hystrix { h with pct := kvInt kvs "pct" h.pct, vol := kvInt kvs "vol" h.vol }
         | .consec o => .consec { o with threshold := kvInt kvs "thr" o.threshold }
         | o => o }
-      runCircuitOps ck c' cfgSpec { rb with openBefore := realOpen } rest (acc.push (s!"open={fmtBool (isOpenEff c')}" ++ "\t-"))
-    | _ => runCircuitOps ck c cfgSpec rb rest (acc.push "bad-op\t-")
+      runCircuitOps fresh ck c' cfgSpec { rb with openBefore := realOpen } rest (acc.push (s!"open={fmtBool (isOpenEff c')}" ++ "\t-"))
+    | _ => runCircuitOps fresh ck c cfgSpec rb rest (acc.push "bad-op\t-")
 
 def suiteCircuit (kvs : List (String × String)) (lines : List (String × String)) : List String :=
   let c := initCirc kvs
   let b3 : SpecC03.Book := { sleep := kvInt kvs "c_sleep" 5000000000, half := kvInt kvs "c_half" 1, req := kvInt kvs "c_req" 1 }
-  (runCircuitOps (closerKind kvs) c c.cfg { c03 := b3 } lines #[]).toList
+  (runCircuitOps (c.opener, c.closer, b3) (closerKind kvs) c c.cfg { c03 := b3 } lines #[]).toList
 
 end CM
